@@ -36,6 +36,11 @@ inductive Tok
   encoding) or `ValueError` ("multi-byte encodings are not supported", `UnicodeError`) comes out
   of the tokenizer's `next()` -/
   | codecError (pyType : String)
+  /-- with `process_xinclude`: the inclusion step fails — the stdlib's `FatalIncludeError` (a
+  `SyntaxError`) under the pure-Python handler, lxml's `XIncludeError` under the lxml handler
+  (malformed or recursive include, invalid `parse` value, missing `href`).  After a successful
+  inclusion the handler walks the expanded tree: that is `tree`. -/
+  | includeError
 deriving Repr
 
 /-- `NodeParser.parse(source, clazz)` as far as the result class is concerned -/
@@ -44,5 +49,7 @@ def parseDocument (e : BEnv) (Γ : Ctx) (cfg : ParserConfig) (clazz : ClassId) :
   | .syntaxError => .error (.parser "syntax error")      -- `except SyntaxError: raise ParserError`
   -- handlers/native.py `iterparse`: `except (LookupError, ValueError): raise ParserError`
   | .codecError _ => .error (.parser "codec error")
+  -- native: `FatalIncludeError` is a `SyntaxError`; lxml: `except etree.XIncludeError: raise ParserError`
+  | .includeError => .error (.parser "xinclude error")
 
 end Xs.Fault
